@@ -3,7 +3,7 @@
      diff-0.1.12/src/lib.rs        iter, lines            (diff_iter, diff_lines)
      src/rustfmt_diff.rs:183-258   make_diff              (go, make_diff)
      src/rustfmt_diff.rs:54-80     ModifiedLines::from    (modified_lines)
-     src/rustfmt_diff.rs:88-140    Display / FromStr      (print_ml, parse_ml)
+     src/rustfmt_diff.rs:82-144    Display / FromStr      (print_modified, parse_modified, parse_modified_pre)
      src/emitter/json.rs:55-100    add_misformatted_file  (json_blocks)
      src/emitter/checkstyle.rs     output_checkstyle_file (checkstyle_errors)
      src/emitter/checkstyle/xml.rs XmlEscaped             (xml_escape)
@@ -308,6 +308,139 @@ Fixpoint wf_attr (t : text) : bool :=
 (* characters that have no representation at all in an XML 1.0 document *)
 Definition xml_forbidden (c : char) : bool :=
   (c <? 32) && negb (c =? 9) && negb (c =? 10) && negb (c =? 13) || (c =? 65534) || (c =? 65535).
+Local Close Scope N_scope.
+
+(* ------------------------------------------------------------------ *)
+(* ModifiedLines: Display / FromStr   src/rustfmt_diff.rs:82-144 *)
+Local Open Scope N_scope.
+
+(* src/rustfmt_diff.rs:37-45 ModifiedChunk, with the two u32 fields as N: a value of the Rust type has
+   mc_orig, mc_removed <= U32_MAX and (Vec) length mc_lines <= USIZE_MAX; a String may contain any scalar,
+   LF and CR included *)
+Record mchunk : Type := MkMC { mc_orig : N; mc_removed : N; mc_lines : list text }.
+Definition mchunk_of (c : chunk text) : mchunk :=
+  MkMC (N.of_nat (ch_orig c)) (N.of_nat (ch_removed c)) (ch_lines c).
+
+Definition U32_MAX : N := 4294967295.
+Definition USIZE_MAX : N := 18446744073709551615.    (* 64-bit target *)
+
+(* core::fmt::Display for u32 / usize (library/core/src/fmt/num.rs): decimal digits produced least significant
+   first into the end of a buffer; no sign, no leading zero, a single 0 for zero *)
+Fixpoint le_digits (fuel : nat) (n : N) : text :=
+  match fuel with
+  | O => []
+  | S f => (48 + n mod 10) :: (if n / 10 =? 0 then [] else le_digits f (n / 10))
+  end.
+Definition dec (n : N) : text := rev (le_digits (S (N.size_nat n)) n).
+
+(* src/rustfmt_diff.rs:88-105 <ModifiedLines as Display>::fmt: per chunk
+   writeln!(f, "{} {} {}", line_number_orig, lines_removed, lines.len()) then writeln!(f, "{line}") per line *)
+Definition print_header (c : mchunk) : text :=
+  dec (mc_orig c) ++ [SP] ++ dec (mc_removed c) ++ [SP] ++ dec (N.of_nat (length (mc_lines c))).
+Definition print_chunk (c : mchunk) : text :=
+  print_header c ++ [LF] ++ unlines (mc_lines c).
+Definition print_modified (cs : list mchunk) : text := concat (map print_chunk cs).
+
+(* str::split_terminator('\n'): the pieces between LFs; a final empty piece is dropped (so the empty text
+   has no piece); nothing else is stripped, a CR before the LF stays *)
+Fixpoint split_term_aux (cur : text) (t : text) : list text :=
+  match t with
+  | [] => match cur with [] => [] | _ => [rev cur] end
+  | c :: t' => if is_lf c then rev cur :: split_term_aux [] t'
+               else split_term_aux (c :: cur) t'
+  end.
+Definition split_terminator (t : text) : list text := split_term_aux [] t.
+
+(* str::split_whitespace: maximal runs of non-White_Space scalars *)
+Fixpoint split_ws_aux (cur : text) (t : text) : list text :=
+  match t with
+  | [] => match cur with [] => [] | _ => [rev cur] end
+  | c :: t' => if is_whitespace c
+               then match cur with [] => split_ws_aux [] t' | _ => rev cur :: split_ws_aux [] t' end
+               else split_ws_aux (c :: cur) t'
+  end.
+Definition split_whitespace (t : text) : list text := split_ws_aux [] t.
+
+(* <u32 as FromStr> / <usize as FromStr> = from_str_radix(src, 10)  (library/core/src/num/mod.rs
+   from_ascii_radix): Empty -> Err; a lone '+' -> Err; one leading '+' is skipped ('-' is not, for an
+   unsigned type, and then fails as an invalid digit); every remaining byte must be an ASCII digit (a
+   non-ASCII scalar is bytes >= 128, none a digit); result = result*10 + digit with checked arithmetic.
+   The partial results never decrease, so an overflow happens somewhere iff the final value exceeds [max];
+   the kind of error is not observable (FromStr for ModifiedLines maps every failure to Err(())). *)
+Definition is_dec_digit (c : char) : bool := (48 <=? c) && (c <=? 57).
+Fixpoint digits_val (acc : N) (s : text) : option N :=
+  match s with
+  | [] => Some acc
+  | c :: s' => if is_dec_digit c then digits_val (acc * 10 + (c - 48)) s' else None
+  end.
+Definition bounded (max : N) (o : option N) : option N :=
+  match o with
+  | Some v => if v <=? max then Some v else None
+  | None => None
+  end.
+Definition parse_uint (max : N) (s : text) : option N :=
+  match s with
+  | [] => None
+  | c :: rest =>
+      if c =? 43 then match rest with [] => None | _ => bounded max (digits_val 0 rest) end
+      else bounded max (digits_val 0 s)
+  end.
+
+(* src/rustfmt_diff.rs:118-127: the first three whitespace-separated words of the header line (further words
+   are ignored), parsed as (u32, u32, usize) *)
+Definition parse_header (h : text) : option (N * N * N) :=
+  match split_whitespace h with
+  | o :: r :: a :: _ =>
+      match parse_uint U32_MAX o, parse_uint U32_MAX r, parse_uint USIZE_MAX a with
+      | Some orig, Some rem, Some new_lines => Some (orig, rem, new_lines)
+      | _, _, _ => None
+      end
+  | _ => None
+  end.
+
+(* lines.by_ref().take(new_lines): (the items taken, what is left in the iterator) *)
+Fixpoint take_lines (n : N) (ls : list text) : list text * list text :=
+  match ls with
+  | [] => ([], [])
+  | l :: ls' => if n =? 0 then ([], ls)
+                else let (a, b) := take_lines (N.pred n) ls' in (l :: a, b)
+  end.
+
+(* result of from_str: Ok / Err(()) / PDiverge = the `while let` loop did not finish within [fuel]
+   iterations (theorem parse_total: never, with fuel = number of lines).  No operation of from_str can
+   panic (no indexing, no arithmetic, no unwrap), so there is no panic value. *)
+Inductive pres : Type := POk (cs : list mchunk) | PErr | PDiverge.
+
+(* src/rustfmt_diff.rs:116-141 the `while let Some(header) = lines.next()` loop; [chunks] is the vector *)
+Fixpoint parse_loop (fuel : nat) (ls : list text) (chunks : list mchunk) : pres :=
+  match ls with
+  | [] => POk chunks
+  | header :: rest =>
+      match fuel with
+      | O => PDiverge
+      | S f =>
+          match parse_header header with
+          | None => PErr
+          | Some (orig, rem, new_lines) =>
+              let (lines, rest') := take_lines new_lines rest in
+              if N.of_nat (length lines) =? new_lines
+              then parse_loop f rest' (chunks ++ [MkMC orig rem lines])
+              else PErr
+          end
+      end
+  end.
+
+Definition parse_lines_res (ls : list text) : pres := parse_loop (length ls) ls [].
+Definition opt_of_pres (r : pres) : option (list mchunk) :=
+  match r with POk cs => Some cs | _ => None end.
+
+(* src/rustfmt_diff.rs:110-143 <ModifiedLines as FromStr>::from_str as it is now (after 686d4f4) *)
+Definition parse_modified_res (t : text) : pres := parse_lines_res (split_terminator t).
+Definition parse_modified (t : text) : option (list mchunk) := opt_of_pres (parse_modified_res t).
+
+(* the same before 686d4f4: `let mut lines = s.lines();` *)
+Definition parse_modified_pre_res (t : text) : pres := parse_lines_res (str_lines t).
+Definition parse_modified_pre (t : text) : option (list mchunk) := opt_of_pres (parse_modified_pre_res t).
 Local Close Scope N_scope.
 
 (* ------------------------------------------------------------------ *)
